@@ -167,7 +167,12 @@ func runC13(c runner.Case, env *runner.Env) (res runner.Result) {
 						v = hdr.Make(expiredTS(), 3, 1, nil, nil)
 						nExpired++
 					case 2:
-						v = hdr.Make(youngTS(), 3, 1, nil, nil)
+						ts := youngTS()
+						if r.Chance(1, 5) {
+							// far-future and "never expire" stamps: timestamps are unsigned 64-bit
+							ts = rng.Pick(r, uint64(1)<<63, uint64(1)<<63+12345, 1<<64-1, uint64(start.UnixNano())+uint64(1)<<62)
+						}
+						v = hdr.Make(ts, 3, 1, nil, nil)
 						nProtected++
 					case 3:
 						v = hdr.Make(ladderTS(), 3, 1, nil, nil)
